@@ -254,6 +254,12 @@ class C08(Prop):
                 # different lengths and the convergence test cannot compare them - outside the domain of a k-root search
                 r.rejected = "a local problem is smaller than nroots"
                 return r
+            if type(e).__name__ == "LinAlgError" and "Internal Error" in str(e) and sig.endswith("eigh_direct"):
+                # scipy.linalg.eigh (LAPACK ?heevr of this scipy build) reports "Internal Error" for some finite Hermitian
+                # matrices that numpy.linalg.eigh diagonalises without complaint (checked on the replay): a property of the
+                # installed LAPACK driver, not of the optimiser - the case is inconclusive
+                r.rejected = "LAPACK ?heevr 'Internal Error' inside scipy.linalg.eigh (environment)"
+                return r
             r.fail(f"optimize.{sig}", f"{e!r} method={case['method']} algo={case['algo']} nroots={nroots} omega={omega} dimq={dimq}")
             return r
         # direct solver: rounding.  Davidson (vendored PySCF routine, lindep 1e-14): Ritz values are variational only up to the
